@@ -426,8 +426,11 @@ class Ref:
         self.tree = self.replay()
 
     def load_env(self, environ):
+        """freshly read environment overrides: which settings exist (and their types) is decided WITHOUT
+        whatever a previous environment load contributed"""
         lvl = {}
-        for p, old in leaves(self.tree):
+        self.levels["env"] = {}
+        for p, old in leaves(self.replay()):
             var = "_".join(p).upper()
             if var in environ:
                 set_total(lvl, list(p), env_cast(old, environ[var]))
